@@ -26,10 +26,13 @@ ASSUMPTIONS = ['volatile / side-effecting formulas (NOW/TODAY/RAND/UUID/REQUEST/
                'trigger-formula columns are data columns: they are loaded into the scratch engine, not recomputed',
                'cells whose value in the scratch engine itself depends on the evaluation order (cycles; C06/C18) are not judged',
                'after every reported difference the history continues on a reopened document (a fresh engine process loaded from the live data columns), so that later comparisons are not shaped by the defect already reported']
-REQUIRED = {'scratch_compares': {'quick': 250, 'thorough': 1500},
-            'compares_after_undo': {'quick': 20, 'thorough': 150},
-            'compares_after_redo': {'quick': 20, 'thorough': 150},
-            'dense_histories': {'quick': 6, 'thorough': 24}}
+REQUIRED = {'scratch_compares': {'quick': 700, 'thorough': 5000},
+            'compares_after_undo': {'quick': 80, 'thorough': 700},
+            'compares_after_redo': {'quick': 80, 'thorough': 700},
+            'scratch_in_fresh_process': {'quick': 30, 'thorough': 150},
+            'dense_histories': {'quick': 12, 'thorough': 60},
+            'injected.rename_column_to_missing_name': {'quick': 4, 'thorough': 25},
+            'witness_runs': {'quick': 9, 'thorough': 9}}
 SHARD_TIMEOUT = {'quick': 1800, 'thorough': 6000}
 
 WEIGHTS = {'add_formula_column': 12, 'modify_formula': 6, 'add_ref_column': 5, 'create_summary': 4, 'update_records': 20,
